@@ -101,6 +101,10 @@ pub fn run_deps_case(case: &Case, env: &Env, prop: &str) -> CaseOut {
     };
     let step = |name: &str, expect_code: i32, expect_tail: &str, trace: &mut Vec<serde_json::Value>| -> String {
         let (code, text) = run_n2(&dir, &["-j", "2"]);
+        if code.is_none() && text.starts_with("cannot run n2") {
+            viols.borrow_mut().push(Viol::new("INFRA", "cannot-run-n2", text.clone()));
+            return text;
+        }
         trace.push(json!({"step": name, "exit": code, "last": text.lines().last().unwrap_or("")}));
         if code != Some(expect_code) || !text.lines().last().unwrap_or("").contains(expect_tail) {
             v(&format!("bb:{}", name.split(' ').next().unwrap_or("")), format!("{}: expected exit {} and a last line containing {:?}, got exit {:?} and {:?}", name, expect_code, expect_tail, code, text.lines().rev().take(3).collect::<Vec<_>>()));
@@ -160,6 +164,10 @@ pub fn run_bad_depfile_case(case: &Case, env: &Env) -> CaseOut {
     std::fs::write("build.ninja", &m).unwrap();
     let (code, text) = run_n2(&dir, &["-j", "1"]);
     let mut out = CaseOut { evals: 1, nontrivial: which < bad.len(), ..Default::default() };
+    if code.is_none() && text.starts_with("cannot run n2") {
+        out.viols.push(Viol::new("INFRA", "cannot-run-n2", text));
+        return out;
+    }
     if which < bad.len() {
         if code != Some(1) || !text.contains("failed: CC") {
             out.viols.push(Viol::new("C15", "bb:malformed-depfile-accepted", format!("the command leaves a malformed depfile ({:?}) but n2 exited {:?}: {:?}", bad[which], code, text)));
